@@ -294,7 +294,28 @@ def run_case(ctx, repo, case):
                 rd = R.tp_rd(mode, p)
                 q1, q2, q3 = (p.to_calendar_date(), p.to_ordinal_date(),
                               p.to_week_date())
-                for q in (p, q1, q2, q3):
+                for q, want_rep in ((q1, "cal"), (q2, "ord"), (q3, "week")):
+                    # a converted copy is in the asked representation only
+                    # (no field of another one left behind) ...
+                    flags = (q.get_is_calendar_date(),
+                             q.get_is_ordinal_date(), q.get_is_week_date())
+                    if R.tp_rep(q) != want_rep or not R.tp_valid(mode, q) \
+                            or flags != tuple(want_rep == r for r in (
+                                "cal", "ord", "week")):
+                        ctx.violation("to_date.mixed", "to_%s of %r carries "
+                                      "fields of another representation: %r "
+                                      "(flags %r)" % (
+                                          want_rep, R.tp_key(p),
+                                          {k: getattr(q, "_" + k) for k in (
+                                              "month_of_year", "day_of_month",
+                                              "day_of_year", "week_of_year",
+                                              "day_of_week")}, flags))
+                # ... and stays a faithful view after a day is added
+                day = repo.Duration(days=1)
+                movers = [] if p._hour_of_day == 24 else [
+                    (q1 + day, 1), (q2 + day, 1), (q3 + day, 1)]
+                for q, shift in [(p, 0), (q1, 0), (q2, 0), (q3, 0)] + movers:
+                    rd = R.tp_rd(mode, p) + shift
                     ctx.ev("accessor.check")
                     got = (tuple(q.get_calendar_date()),
                            tuple(q.get_ordinal_date()),
